@@ -537,9 +537,15 @@ def decide(d, ob, src='h.c', budget=None, log=None):
             can, n = canary_prop(d, gb, ob)
             canary = None
             if can:
-                st2, res2, dt2 = sat_run(d, gb, ob, 'cadical', budget, prop=can)
-                if st2 == 'done':
-                    canary = any(r['status'] != 'SUCCESS' for r in res2)
+                # reachability of the end of the harness under the precondition: any SAT back end may answer
+                ev = threading.Event()
+                with cf.ThreadPoolExecutor(3) as ex2:
+                    fs = [ex2.submit(sat_run, d, gb, ob, sv, budget, can, ev) for sv in ('cadical', 'minisat', 'kissat')]
+                    for f2 in cf.as_completed(fs):
+                        st2, res2, dt2 = f2.result()
+                        if st2 == 'done' and canary is None:
+                            canary = any(r['status'] != 'SUCCESS' for r in res2)
+                            ev.set()
             return dict(status='proved', backend='cbmc-smt2+' + ibname, failed=[], inputs=None, canary=canary, n=max(n - 1, 1))
         if st.startswith('sat'):
             ibname = st.split(':')[1]
